@@ -7,7 +7,7 @@
 (* The dump of this run is replayed into the real code with the numeric kernel replaced by one that returns *)
 (* exactly `kern` (direction 1).  SpecArm enumerates by_arm alone.                                          *)
 EXTENDS Segments
-CONSTANTS MaxBinsPer,   \* <<n1, ..>>: chromosome c has 1..n_c bins
+CONSTANTS NChromMC, MaxBinsMC,   \* chromosomes 1..NChromMC, each with 1..MaxBinsMC bins
           MethodsMC,    \* methods enumerated
           MinGap, MinArmBins,
           Kinds,        \* bin kinds: "ok", "w0" (weight 0), "wlow" (weight 1/4), "null" (log2 -20, depth 0),
@@ -15,25 +15,29 @@ CONSTANTS MaxBinsPer,   \* <<n1, ..>>: chromosome c has 1..n_c bins
           SkipLows, MinWs,
           GapSizes,     \* sizes of the one large gap (MinGap - 1: not a centromere, MinGap: one)
           WithGap,      \* enumerate the position of a large gap
-          GeneNames,    \* gene names, cycled through by bin position
           ArmMaxBins, ArmGaps, ArmMabs    \* SpecArm: bins, gap sizes between neighbours, min_arm_bins values
 
+MaxBinsPer == [c \in 1..NChromMC |-> MaxBinsMC]
+(* gene names, cycled through by bin position: duplicates, not-meaningful names, Antitarget *)
+GeneNames == <<"A", "A", "-", "B", "Antitarget", "A", "CGH">>
+
 (* ---- concrete bins ---- *)
-Spacing(k, g, z) == IF k = g THEN z ELSE k % 2               \* distance between bin k-1 and bin k
+Md(a, b) == a - b * (a \div b)      \* a mod b for a >= 0 (this SANY's linter trips over the percent sign here)
+Spacing(k, g, z) == IF k = g THEN z ELSE Md(k, 2)               \* distance between bin k-1 and bin k
 RECURSIVE StartOf(_, _, _, _)
 StartOf(k, g, z, base) == IF k = 1 THEN base ELSE StartOf(k - 1, g, z, base) + 2 + Spacing(k, g, z)
 MkBin(c, k, kind, start) ==
     LET m == k + 3 * (c - 1)
-        l0 == 256 * ((m * 3) % 5 - 2)
-        d0 == DU * (1 + m % 3)
-    IN <<c, start, start + 2, GeneNames[(m - 1) % Len(GeneNames) + 1],
+        l0 == 256 * (Md(m * 3, 5) - 2)
+        d0 == DU * (1 + Md(m, 3))
+    IN <<c, start, start + 2, GeneNames[Md(m - 1, Len(GeneNames)) + 1],
          (CASE kind = "w0" -> 0 [] kind = "wlow" -> WU \div 4 [] OTHER -> WU),
          (CASE kind = "null" -> (-20) * LU [] kind = "l15" -> LowCut [] kind = "l15m" -> LowCut - 1 [] OTHER -> l0),
          (CASE kind = "null" -> 0 [] OTHER -> d0)>>
 MkChrom(c, n, g, z, kinds) == [k \in 1..n |-> MkBin(c, k, kinds[k], StartOf(k, g, z, 10 * c))]
 GapPos(n) == IF WithGap THEN {0} \cup 2..n ELSE {0}
-ChromTables(c) == {MkChrom(c, n, g, z, kinds) : n \in 1..MaxBinsPer[c], g \in GapPos(n), z \in GapSizes,
-                                                 kinds \in [1..MaxBinsPer[c] -> Kinds]}
+ChromTables(c) == UNION {UNION {{MkChrom(c, n, g, z, kinds) : z \in GapSizes, kinds \in [1..n -> Kinds]}
+                                : g \in GapPos(n)} : n \in 1..MaxBinsPer[c]}
 RECURSIVE TabsFrom(_)
 TabsFrom(c) == IF c > Len(MaxBinsPer) THEN {<<>>} ELSE {ch \o rest : ch \in ChromTables(c), rest \in TabsFrom(c + 1)}
 TablesMC == TabsFrom(1)
@@ -46,10 +50,10 @@ VARIABLES op, bins, skiplow, minw, mabv, kern, ph, out
 vars == <<op, bins, skiplow, minw, mabv, kern, ph, out>>
 
 Proto == [op |-> op, bins |-> bins, skiplow |-> skiplow, skipout |-> 0, minw |-> minw, procs |-> 1,
-          gap |-> MinGap, mab |-> mabv, sd9 |-> 0, forced |-> TRUE, kern |-> kern, err |-> ""]
+          gap |-> MinGap, mab |-> mabv, sd9 |-> 0, forced |-> TRUE, kern |-> SetToSortSeq(kern, <), err |-> ""]
 SurvMC == LET keep == Keep0(Proto) IN [n \in Idx(bins) |-> n \in keep]
 Rec == [op |-> op, bins |-> bins, skiplow |-> skiplow, skipout |-> 0, minw |-> minw, procs |-> 1,
-        gap |-> MinGap, mab |-> mabv, sd9 |-> 0, forced |-> TRUE, kern |-> kern, err |-> "",
+        gap |-> MinGap, mab |-> mabv, sd9 |-> 0, forced |-> TRUE, kern |-> SetToSortSeq(kern, <), err |-> "",
         surv |-> IF op = "byarm" THEN <<>> ELSE SurvMC,
         out |-> IF op = "byarm" THEN <<>> ELSE out,
         arms |-> IF op = "byarm" THEN out ELSE <<>>]
